@@ -4062,7 +4062,8 @@ fn eval_built_in_call(
                 }
             };
 
-            let v = check_snippet(snippet, PathBuf::from(path_s), env);
+            // Relative paths are relative to the working directory.
+            let v = check_snippet(snippet, env.working_directory.join(path_s), env);
             if expr_value_is_used {
                 env.push_value(v);
             }
